@@ -43,6 +43,9 @@ type Req struct {
 	// passes) at the point where the component fails - or, for a render that does not fail, before
 	// its last chunk. The client stays connected.
 	CtxDone bool `json:"ctx_done,omitempty"`
+	// Method: "" = GET; HEAD and POST are requests like any other to the handler (through a real
+	// server the client sees no body for HEAD).
+	Method string `json:"method,omitempty"`
 }
 
 type cancelKeyT struct{}
@@ -62,7 +65,7 @@ type Case struct {
 
 var rec = ev.New("C11", "c11.handler",
 	"histories of 1..12 requests against templ.Handler (and renders through templ.ToGoHTML, which shares its buffer pool) with generated configuration (status unset/200/201/404/500, content type, error handler none / header+body / body only / nothing / status only, streaming on/off) and a component that writes k chunks "+
-		"(0..64KiB, alphabet disjoint from every error text) then fails or not - in a quarter of the requests with the request's context cancelled at that moment, as a timeout middleware does -, via httptest.ResponseRecorder and via a real loopback net/http server; buffered oracle: success => configured status+content type+exact document; failure => exactly the default 500 message or exactly the error handler's response, no document byte, "+
+		"(0..64KiB, alphabet disjoint from every error text) then fails or not, for GET, HEAD and POST requests - in a quarter of the requests with the request's context cancelled at that moment, as a timeout middleware does -, via httptest.ResponseRecorder and via a real loopback net/http server; buffered oracle: success => configured status+content type+exact document; failure => exactly the default 500 message or exactly the error handler's response, no document byte, "+
 		"never the configured success status. Non-trivial = failure after >=1 chunk, or a success following a failure in the same history; distinct by request configuration + position")
 
 var errCause = errors.New("component failed deliberately")
@@ -136,6 +139,13 @@ func handlerFor(r Req, comp templ.Component, sawErr *error) http.Handler {
 
 func doc(r Req) string { return strings.Join(r.Chunks, "") }
 
+func methodOf(r Req) string {
+	if r.Method == "" {
+		return "GET"
+	}
+	return r.Method
+}
+
 func fails(r Req) bool { return r.FailAfter >= 0 }
 
 type resp struct {
@@ -176,9 +186,13 @@ func do(r Req, sawErr *error) (out resp, err error) {
 		id := fmt.Sprint(realSeq.Add(1))
 		realHandlers.Store(id, h)
 		defer realHandlers.Delete(id)
-		res, err := http.Get(realServer().URL + "/" + id)
+		hreq, herr := http.NewRequest(methodOf(r), realServer().URL+"/"+id, nil)
+		if herr != nil {
+			panic("harness: " + herr.Error())
+		}
+		res, err := http.DefaultClient.Do(hreq)
 		if err != nil {
-			panic("harness: GET: " + err.Error())
+			panic("harness: " + methodOf(r) + ": " + err.Error())
 		}
 		defer res.Body.Close()
 		b, err := io.ReadAll(res.Body)
@@ -188,7 +202,7 @@ func do(r Req, sawErr *error) (out resp, err error) {
 		return resp{res.StatusCode, res.Header.Get("Content-Type"), string(b)}, nil
 	}
 	w := httptest.NewRecorder()
-	h.ServeHTTP(w, httptest.NewRequest("GET", "/", nil))
+	h.ServeHTTP(w, httptest.NewRequest(methodOf(r), "/", nil))
 	return resp{w.Code, w.Header().Get("Content-Type"), w.Body.String()}, nil
 }
 
@@ -229,6 +243,33 @@ func decide(c Case) error {
 
 // judge decides one response.
 func judge(i int, r Req, got resp, sawErr error) error {
+	if r.Real && r.Method == "HEAD" {
+		// the client of a real server sees status and headers only: they must be those of the
+		// corresponding GET
+		if got.body != "" {
+			return fmt.Errorf("request %d (HEAD over a real connection): the client received a body %q", i, clip(got.body))
+		}
+		if r.Stream && fails(r) {
+			return nil // streaming: partial output and a late status are the documented contrast
+		}
+		want := 200
+		switch {
+		case !fails(r):
+			if r.Status != 0 {
+				want = r.Status
+			}
+		case r.EH == "none":
+			want = 500
+		case r.EH == "header+body":
+			want = http.StatusBadGateway
+		case r.EH == "status":
+			want = http.StatusTeapot
+		}
+		if got.code != want {
+			return fmt.Errorf("request %d (HEAD, %s): status %d, a GET gets %d", i, map[bool]string{true: "render fails", false: "render succeeds"}[fails(r)], got.code, want)
+		}
+		return nil
+	}
 	for once := true; once; once = false {
 		ct := r.CT
 		if ct == "" {
@@ -326,6 +367,9 @@ var genReq = rapid.Custom(func(t *rapid.T) Req {
 		r.FailAfter = rapid.IntRange(0, len(r.Chunks)).Draw(t, "failAfter")
 	}
 	r.CtxDone = !r.ToGoHTML && rapid.IntRange(0, 3).Draw(t, "ctxDone") == 0
+	if !r.ToGoHTML {
+		r.Method = rapid.SampledFrom([]string{"", "", "", "HEAD", "HEAD", "POST"}).Draw(t, "method")
+	}
 	return r
 })
 
